@@ -5,3 +5,12 @@ pub assume_specification<T, A: std::alloc::Allocator> [std::collections::VecDequ
     ensures v@.len() == 0 ==> r is None, v@.len() > 0 ==> r == Some(&v@[0]);
 pub assume_specification<T, A: std::alloc::Allocator> [std::collections::VecDeque::<T, A>::back] (v: &std::collections::VecDeque<T, A>) -> (r: Option<&T>)
     ensures v@.len() == 0 ==> r is None, v@.len() > 0 ==> r == Some(&v@[v@.len() - 1]);
+// `for x in &deque` goes through IntoIterator for &VecDeque, for which vstd has no specification: it yields the elements
+// front to back, then None (vstd's prophetic iterator laws for vec_deque::Iter are used as they are)
+pub assume_specification<'a, T, A: std::alloc::Allocator> [<&'a std::collections::VecDeque<T, A> as IntoIterator>::into_iter] (v: &'a std::collections::VecDeque<T, A>) -> (r: std::collections::vec_deque::Iter<'a, T>)
+    ensures
+        vstd::std_specs::iter::IteratorSpec::remaining(&r).len() == v@.len(),
+        forall|i: int| 0 <= i < v@.len() ==> *#[trigger] vstd::std_specs::iter::IteratorSpec::remaining(&r)[i] == v@[i],
+        vstd::std_specs::iter::IteratorSpec::will_return_none(&r),
+        vstd::std_specs::iter::IteratorSpec::obeys_prophetic_iter_laws(&r),
+        vstd::std_specs::iter::IteratorSpec::decrease(&r) is Some;
